@@ -4,6 +4,7 @@ import (
 	"fmt"
 	"math"
 	"math/rand"
+	"strings"
 
 	"github.com/yaricom/goNEAT/v4/neat"
 	"github.com/yaricom/goNEAT/v4/neat/genetics"
@@ -116,7 +117,11 @@ func runPhased(r *Run, in *epochInput) historyResult {
 				total += sp.ExpectedOffspring
 			}
 			if total != N {
-				bad("quota-total", fmt.Sprintf("species quotas total %d, population size %d", total, N))
+				key := "quota-total"
+				if in.FitRule == 7 && total > N {
+					key = "subnormal-fitness-quota-overshoot"
+				}
+				bad(key, fmt.Sprintf("species quotas total %d, population size %d", total, N))
 			}
 			if mean != 0 {
 				sumE := 0.0
@@ -148,7 +153,11 @@ func runPhased(r *Run, in *epochInput) historyResult {
 					}
 				}
 				if math.Abs(sumE-float64(N)) > 1e-6*float64(N) {
-					bad("sum-expected", "expected offspring of all organisms do not sum to the population size")
+					key := "sum-expected"
+					if in.FitRule == 7 { // either direction: the rounded subnormal average is off by up to a factor 2
+						key = "subnormal-fitness-quota-overshoot"
+					}
+					bad(key, "expected offspring of all organisms do not sum to the population size")
 				}
 			}
 			for _, sp := range allSpecies {
@@ -215,7 +224,11 @@ func runPhased(r *Run, in *epochInput) historyResult {
 		}()
 		if rerr != nil {
 			res.err = rerr
-			bad("reproduce-error", fmt.Sprintf("reproduction failed in epoch %d: %v", ep, rerr))
+			key := "reproduce-error"
+			if in.FitRule == 7 && strings.Contains(rerr.Error(), "progeny size") {
+				key = "subnormal-fitness-quota-overshoot"
+			}
+			bad(key, fmt.Sprintf("reproduction failed in epoch %d: %v", ep, rerr))
 			break
 		}
 		if in.Prop == "C08" {
